@@ -5,14 +5,21 @@
      cosmology.py        RedshiftBinningFactory.linear / comoving / logspace,
                          Scales._set_scales, Angular/Physical/ComovingScales._compute_angle
      binning.py          parse_binning
-   Every function that has a defect on the pinned commit (462b5d4) takes a flag [fx]:
-     fx = false : the code of the pinned commit (the CURRENT model)
-     fx = true  : the repaired algorithm        (the REPAIRED model; theorems are about this one)
-   The defect sites: config_eq (F14, rbin_num), factory_cosmo (F15, modify drops / does not parse
-   the cosmology), modify_binning (F20, KeyError on custom edges), mapped (F19, end points of
-   comoving / logspace edges mapped back instead of assigned; repaired in /repo by 53b0b79),
-   from_dict (custom edges not restorable; repaired in /repo by cd08e63), parse_cosmology
-   (CustomCosmology instances refused with TypeError).
+   Every function that had a defect on the pinned commit (462b5d4) takes a flag [fx]:
+     fx = false : the code of the pinned commit (the CURRENT-at-design-time model; _refuted lemmas)
+     fx = true  : the repaired algorithm = the code of /repo after the fix commits named below
+                  (the theorems are about this one)
+   The defect sites and the commits of /repo that repaired them:
+     config_eq        F14  ScalesConfig.__eq__ read rbin_num                        05ef9f8
+     factory_cosmo    F15  modify dropped / did not parse the cosmology             48c9138
+     modify_binning   F20  KeyError on custom edges                                 51a2e35
+     mapped           F19  end points of comoving / logspace edges mapped back
+                           instead of assigned (the repaired comoving factory never
+                           inverts the end points, so zmin = 0 works: snapped_point
+                           does not consult Dinv at i = 0 and i = n)        53b0b79, 5c1897f
+     from_dict             custom edges not restorable from to_dict()               cd08e63
+     parse_cosmology       CustomCosmology instances refused with TypeError  6ce6785 (97829cc:
+                           float-returning custom comoving_distance in the comoving factory)
 
    ORACLES (Section Context below, nothing else is assumed):
      Dc  cos z : comoving distance D_C(z) [Mpc] of cosmology number cos
@@ -202,10 +209,10 @@ Definition config_eq (fx : bool) (a b : config) : outcome bool :=
     else Ok (c_cosmo a =? c_cosmo b)%nat
   else Crashed AttrErr.                                                      (* F14 *)
 
-(* parse_cosmology.  isinstance(cosmology, get_args(TypeCosmology)) raises TypeError for every
-   object that is not an FLRW instance, because the second member of the Union is a forward
-   reference (a string): a CustomCosmology instance is refused (new finding), any other
-   object is refused too (which is right, if by accident). *)
+(* parse_cosmology.  Pinned commit: isinstance(cosmology, get_args(TypeCosmology)) raised TypeError
+   for every object that is not an FLRW instance, because the second member of the Union was a
+   forward reference (a string): a CustomCosmology instance was refused, any other object was
+   refused too (which is right, if by accident).  Repaired: the Union holds the class. *)
 Definition parse_cosmology (fx : bool) (a : cosmo_arg) : outcome nat :=
   match a with
   | CosNone => Ok 0%nat
